@@ -71,3 +71,23 @@ fn kb_from_slice_text_not_binary() {
     kani::assume(raw[0] != 0x20 && raw[0] != 0x40 && raw[0] != 0x80);
     assert!(from_slice(&raw).is_err());
 }
+
+use crate::verif_kani_spec::*;
+
+/// C01 round trip on flat documents: decode(doc) is Ok and re-encoding the decoded value gives the identical bytes
+/// (documents: arrays of exactly 2 scalars from the menu; every proper prefix is rejected)
+#[kani::proof]
+#[kani::unwind(34)]
+#[kani::stub(crate::parser::parse_value, no_text)]
+fn kb_roundtrip_array2() {
+    let a = [any_sc(), any_sc()];
+    let doc = layout_array(&[a[0].it, a[1].it]);
+    let r = parse_jsonb(doc.as_slice());
+    assert!(r.is_ok());
+    let v = r.unwrap();
+    let back = v.to_vec();
+    assert!(doc.eq_slice(back.as_slice()));
+    let cut: usize = kani::any();
+    kani::assume(cut < doc.n);
+    assert!(parse_jsonb(&doc.b[..cut]).is_err());
+}
